@@ -97,16 +97,11 @@ theorem C01_no_foreign_response : ∀ s, Reach Skeleton.current s →
     ∀ d, d ∈ s.deliveries → d.frameCall = d.waiterId :=
   no_foreign_response_of _ cur_facts
 
-/- Full statement of `C01_can_complete` (NOT proved in this form):
-     ∀ s, Reach Skeleton.current s → ∀ e t, (s.calls e t).pc.waiting = true →
-       "no handler thread on the chain serving (e,t) is stalled" →
-       ∃ acts s', run Skeleton.current s acts = some s' ∧ (s'.calls e t).pc = .returned
-   Proved below: the case in which the call has been started and its request not yet written
-   (`registered`), from EVERY reachable state, with any handler return; `C02_chain_completes`
-   adds fresh calls with nested chains of any depth.  Missing: the intermediate stages of a
-   call that is already `written` (request in flight / handler resolving, running, returned /
-   response in flight / publisher pending), which need a progress invariant locating the
-   call's frame or thread in each stage. -/
+/- `C01_can_complete` at full strength — every call thread that is `registered` OR `written`, in
+   every reachable state, handlers waiting in nested calls to any depth included — is in
+   Props/C01Live.lean (progress invariant: Lemmas/SystemProgress.lean).  The theorem below is
+   the special case it grew out of (request not yet written); it additionally says that the
+   handler's return value can be chosen freely and that no existing handler thread is used. -/
 
 /-- From every reachable state, every call that has been started but whose request is not yet
     written can still be completed, with whatever `(v, err)` its handler returns, by 8 further
